@@ -1,3 +1,4 @@
 import Props.GenCapstoneJoin
 open Model.Capstone
 #print axioms translated_join_preserves_inv
+#print axioms Model.Capstone.translated_join_union
